@@ -94,6 +94,10 @@ def run(ctx):
         d = A.prepare_pkg(os.path.dirname(src), base)
         if d: pkgs.append(d); kinds_of[d] = "corpus"
     rel = set()
+    # corpus packages whose name ends in _pow / starts with rel_ need the release profile to reach the asm shapes
+    for d in pkgs:
+        if kinds_of.get(d) == "corpus" and (os.path.basename(d).startswith("rel_") or os.path.basename(d) == "zero_div_pow"):
+            rel.add(d)
     for k in range(1 if ctx.quick else 5):
         d = gen_effects_pkg(ctx.rng, base, "fx_%d" % k, 4 if ctx.quick else 10); pkgs.append(d); kinds_of[d] = "generated-effects"
         d, _ = C08.gen_spill_pkg(ctx.rng, base, "sp_%d" % k, 2 if ctx.quick else 5); pkgs.append(d); kinds_of[d] = "generated-spill"
